@@ -105,6 +105,11 @@ def rule_one_guard(ctx):
         for s in b.calls('payload::history::PayloadHistory::' + acc):
             g = guard_of(b, b.origin_of_operand(s.term['args'][0]))
             gs[acc] = g.loc() if g else None
+    # the combined accessor reads both under the guard it is called on
+    for s in b.calls('payload::history::PayloadHistory::session_and_serial'):
+        g = guard_of(b, b.origin_of_operand(s.term['args'][0]))
+        for acc in ('session', 'serial'):
+            gs.setdefault(acc, g.loc() if g else None)
     ctx.check(len(set(gs.values())) == 1 and None not in gs.values() and len(gs) == 4, 'K5', 'payload-handler:validators-one-guard',
               'session, serial, created and the snapshot are read under one read guard (%s)' % gs,
               'ETag inputs, created and snapshot are read under different lock acquisitions: %s' % gs)
